@@ -52,6 +52,12 @@ CLAIMED["C18"] = dict(engine="server-life", tech="TLA+ model ServerLife.tla (acc
 CLAIMED["C20"] = dict(engine="mux", tech="TLA+ model Mux.tla (first-match scan per kind, error stops the loop) enumerated by TLC over every handler table x inbound sequence inside the bounds; one real dispatch per model transition on a real EnvelopeMux over a real TCP session (real Server / ListenClient); TLC monitor MuxObs (C20_FirstMatch, C20_ErrorStops, C20_Continues)",
    text="All tables of up to 2 (thorough 3) handlers per kind over 5 predicate shapes and ok/err outcomes, all inbound sequences of up to 2 (thorough 3) envelopes, both roles: about 10^4 cases, each executed for real; handlers log which of them ran and with what envelope.", ref="DESIGN.md 3.7, 5 (C20)",
    note="Unbuffered channel streams make dispatch order equal to arrival order; events are listed in that causal order; a handler error is given 40 ms to finish the session; trusted: TLC, CommunityModules Json, Go runtime.")
+CHAN_NOTE = ("Channel.tla is checked exhaustively by TLC for 2 senders x 2 envelopes, stream buffer 1-2, wire capacity 2, FinishSession at any moment; the real sessions run as seeded perturbed free runs (one process per run) over in-process, TCP, TCP+TLS, WebSocket and secure WebSocket, so schedules on the real code are sampled; "
+             "closure is observed with 7 s bounds because TCP receivers poll every 5 s; trusted: TLC, CommunityModules Json, Go runtime, crypto/tls, gorilla/websocket.")
+CLAIMED["C04"] = dict(engine="channel", tech="TLA+ model Channel.tla (senders, send mutex, wire, receiver, bounded streams, consumer) checked by TLC; perturbed free runs of real sessions over the five transports with concurrent senders in both directions, mixed kinds, 60 KiB payloads, buffers 0/1/8 and slow handlers; every recorded history validated by the TLC monitor ChanObs (C04_NoFabrication, C04_AtMostOnce, C04_PerSenderOrder, C04_AllDelivered, C04_Intact)",
+   text="Every interleaving of the model instance is checked by TLC; on the real code each run's complete send/deliver history is checked by TLC against the same operators.", ref="DESIGN.md 3.2, 5 (C04)", note=CHAN_NOTE)
+CLAIMED["C13"] = dict(engine="channel", tech="TLA+ model Channel.tla (FinishSession steps racing with senders and the receiver; invariant WriterExclusion) checked by TLC; perturbed free runs over the five transports ending the session by client finish / server finish / server fail / Server.Close, idle or during traffic; TLC monitor ChanObs (C13_CleanEnd, C13_NoLeak, C13_NoCrash)",
+   text="The model is checked for every moment of termination relative to traffic in flight; real sessions are ended at seeded moments and what both parties observe (terminal state, receiver-done, streams, consumers, connection, goroutine census, process survival) is checked by TLC.", ref="DESIGN.md 3.2, 5 (C13)", note=CHAN_NOTE)
 CLAIMED["C06"]["engine"] = "hs-server+hs-client"
 CLAIMED["C06"]["note"] = HS_NOTE + " Both roles: server role on HsServer behaviours, client role on HsClient behaviours."
 CLAIMED["C06"]["tech"] += " and HsClient.tla + C06_ClientSendGuard for the client role"
@@ -85,6 +91,9 @@ m = {
            "baseline_off_cmd": "cd /repo && GOFLAGS=-mod=mod GOPROXY=off GOSUMDB=off GOTOOLCHAIN=local go test -json -vet=off -count=1 -timeout 25m ./...",
            "source_commits": hook_commits, "add_only": True},
  "engines": [
+   {"name": "channel", "path": "spec/Channel.tla spec/ChannelMC.tla spec/ChanProps.tla spec/ChanObs.tla harness/chand tools/engines/chan.py",
+    "serves_properties": ["C04", "C13"],
+    "kind_free_text": "TLA+ model of the established data path and teardown, exhaustive TLC check, perturbed free runs of real sessions over five transports (process per run), TLC trace monitor"},
    {"name": "mux", "path": "spec/Mux.tla spec/MuxMC.tla spec/MuxProps.tla spec/MuxObs.tla harness/muxd tools/engines/mux.py",
     "serves_properties": ["C20"],
     "kind_free_text": "TLA+ model of the dispatcher, exhaustive TLC enumeration of tables and inbound sequences, one real dispatch per case, TLC trace monitor"},
